@@ -57,6 +57,10 @@ def main(argv):
     for sid in seeds:
         sdir = os.path.join(VERIF, "seeded", sid)
         meta = json.load(open(os.path.join(sdir, "meta.json")))
+        if meta.get("obsolete"):
+            results[sid] = {"property": meta["property"], "obsolete": True}
+            print(sid, json.dumps(results[sid]), flush=True)
+            continue
         tmp = tempfile.mkdtemp(prefix="seeded-")
         wt = os.path.join(tmp, "wt")
         out = os.path.join(tmp, "out")
@@ -98,8 +102,10 @@ def main(argv):
             shutil.rmtree(tmp, ignore_errors=True)
         results[sid] = res
         print(sid, json.dumps(res), flush=True)
-    missed = [s for s, r in results.items() if not r.get("detected")]
-    print(f"\n{len(results) - len(missed)}/{len(results)} seeded changes detected by their property's {tier} check; missed: {missed}")
+    live = {s: r for s, r in results.items() if not r.get("obsolete")}
+    missed = [s for s, r in live.items() if not r.get("detected")]
+    print(f"\n{len(live) - len(missed)}/{len(live)} seeded changes detected by their property's {tier} check; missed: {missed}"
+          + (f"; obsolete (neutralised by a later fix, skipped): {[s for s in results if s not in live]}" if len(live) != len(results) else ""))
     with open(os.path.join(HERE, f"last_run_{tier}{'_all' if all_checks else ''}.json"), "w") as f:
         json.dump(results, f, indent=1)
     return 0
